@@ -38,7 +38,7 @@ func Cases(cfg Config, dry *Result, variants []Variant, extraScenarios, rawDial 
 		for si, side := range []string{"out", "in"} {
 			// one index beyond the dry-run count: the position "after the last call" (usually not reached)
 			for k := 0; k <= dry.Ops[si]; k++ {
-				for _, io := range memnet.IOFaults {
+				for _, io := range IOFaultMenu() {
 					add(Fault{Kind: "io", Side: side, K: k, What: io.String()})
 				}
 				add(Fault{Kind: "cancel", Side: side, K: k})
@@ -86,6 +86,14 @@ type EnumOptions struct {
 	RawDialFaults  bool      // the raw dial itself fails (refused, times out, caller gives up as it connects)
 }
 
+// IOFaultMenu is the statement's menu; the thorough tier adds the transient (one-shot) errors.
+func IOFaultMenu() []memnet.Fault {
+	if vrep.Thorough() {
+		return append(append([]memnet.Fault(nil), memnet.IOFaults...), memnet.TransientIOFaults...)
+	}
+	return memnet.IOFaults
+}
+
 // AllVariants returns the cross product of the three variant switches.
 func AllVariants() []Variant {
 	var variants []Variant
@@ -123,7 +131,7 @@ func Enumerate(t *testing.T, r *vrep.Result, o EnumOptions) {
 	}
 	r.Bounds["configurations"] = fmt.Sprint(cfgs)
 	r.Bounds["faults_per_run"] = 1
-	r.Bounds["io_faults"] = fmt.Sprint(memnet.IOFaults)
+	r.Bounds["io_faults"] = fmt.Sprint(IOFaultMenu())
 	r.Bounds["variants(teardown order, late Accept, short dial timeout)"] = len(variants)
 	r.Bounds["scenarios"] = "echo x full fault menu"
 	if o.ExtraScenarios {
@@ -212,18 +220,26 @@ func Enumerate(t *testing.T, r *vrep.Result, o EnumOptions) {
 
 // Replay re-executes exactly the case stored in a replay file and prints its trace.
 func Replay(t *testing.T, r *vrep.Result, path string, dial DialFunc) {
+	if sh, _ := vrep.Shard(); sh != 0 {
+		return // one worker replays
+	}
 	b, err := os.ReadFile(path)
 	if err != nil {
 		r.Cap("replay: %v", err)
 		return
 	}
 	var f struct {
+		Part   string `json:"part"`
 		Replay struct {
 			Case Case `json:"case"`
 		} `json:"replay"`
 	}
 	if err := json.Unmarshal(b, &f); err != nil {
 		r.Cap("replay: %v", err)
+		return
+	}
+	if f.Part != "" && f.Part != r.Part {
+		fmt.Printf("C04 replay: %s belongs to part %q, not to %q - nothing to do here\n", path, f.Part, r.Part)
 		return
 	}
 	res := RunCase(t, f.Replay.Case, dial)
